@@ -16,7 +16,7 @@ from checks import dpgen, dplib
 PROP = "C16"
 S, D, P = dpgen.src, dpgen.dst, dpgen.proc
 KINDS = ["proc-gen", "conn-setting", "desc", "dlq", "add-proc", "del-proc"]
-LA_KEEP = {"Reset", "Planned", "ApplyCall", "ApplyRet", "Emit", "Proc", "TxTag", "StoreSet", "Open", "Teardown", "SrcAck", "Durable",
+LA_KEEP = {"Reset", "Planned", "ApplyCall", "ApplyRet", "Emit", "Proc", "TxTag", "StoreSet", "TxCommit", "Open", "Teardown", "SrcAck", "Durable",
            "End", "Hang", "Panic", "HarnessError", "ChildTimeout"}
 LA_INV = {"StaleRefused", "AuthRequired", "DrainedBeforeMutate", "AppliedIsDesired", "FailedConsistent",
           "ContinuesFromDurable", "NoHang"}
@@ -50,7 +50,7 @@ def special(engine, rng, n):
     for i in range(n):
         b = base(engine, "x%04d" % i)
         k1, k2 = rng.sample(KINDS, 2)
-        variant = i % 6
+        variant = i % 7
         pre = [{"do": "Emit", "src": "pl:s1"}] * rng.randint(0, 2)
         feats = {"live-apply", "reconf"}
         if variant == 0:      # stale: plan A, plan + apply B, then apply A
@@ -83,6 +83,15 @@ def special(engine, rng, n):
                            {"do": "Plan", "tag": "proc-gen-all", "k": 1}, {"do": "Apply", "force": True},
                            {"do": "Emit", "src": "pl:s1"}]
             feats |= {"inplace-partial-fail", "proc-gen-all"}
+        elif variant == 6:    # TLC counterexample of LiveApply.tla (StartExcluded = FALSE): the pipeline is stopped when the
+            # apply checks it, a Start lands before the import (held at its transaction begin), the import then
+            # rewrites the configuration of a running pipeline - without authorisation, without a drain
+            k1 = rng.choice([k for k in KINDS if k != "proc-gen"])
+            steps = pre + [{"do": "StopAndWait"}, {"do": "AwaitCalls", "ms": 8000}, {"do": "Settle"},
+                           {"do": "Plan", "tag": k1, "k": 1}, {"do": "HoldStore", "dst": "begin"},
+                           {"do": "Apply", "force": False, "n": 1, "k": 1}, {"do": "WaitHeld", "ms": 5000},
+                           {"do": "Start"}, {"do": "ReleaseStore"}, {"do": "AwaitCalls", "ms": 8000}]
+            feats |= {"start-during-apply"}
         elif variant == 2:    # a store operation of the apply fails
             steps = pre + [{"do": "Plan", "tag": k1, "k": 1}, {"do": "Apply", "force": True}]
             b["store_faults"] = [{"op": rng.choice(["set", "commit", "begin"]), "at": rng.randint(3, 12), "key": ""}]
@@ -98,13 +107,44 @@ def special(engine, rng, n):
     return out
 
 
+LA_CFG = '''SPECIFICATION Spec
+CONSTANTS Appliers = %s Parts = {"procs", "conn"} Vals = {1, 2} LockFirst = %s StartExcluded = %s AllowFail = TRUE
+INVARIANTS StaleNeverApplied AuthRequired DrainedBeforeMutate NothingLost LockReleased
+CHECK_DEADLOCK FALSE
+'''
+
+
+def design(chk, quick):
+    """spec/mgmt/LiveApply.tla: the lock / verify / authorise / drain / import / restart protocol of one pipeline with
+    concurrent applies and an environment that starts the pipeline at any time.  The idealised protocol must satisfy
+    the four properties; the two named deviations must be refuted (the invariants bite): verifying before locking
+    (StaleNeverApplied), and - as in the code - Start not excluded by the provisioning lock (AuthRequired /
+    DrainedBeforeMutate: the design-level picture of known finding F29, replayed on the real services below)."""
+    f = [vlib.SPEC + "/mgmt/LiveApply.tla"]
+    ap = '{"a1", "a2"}' if quick else '{"a1", "a2", "a3"}'
+    for lf, se, expect in (("TRUE", "TRUE", None), ("FALSE", "TRUE", "StaleNeverApplied"), ("TRUE", "FALSE", "F29")):
+        r = vlib.tlc_run("LiveApply", LA_CFG % (ap if expect is None else '{"a1", "a2"}', lf, se), f,
+                         name="LiveApply-%s-%s" % (lf, se), timeout=1800)
+        if r["error"]:
+            raise vlib.Infra("TLC error in LiveApply: %s" % r["error"])
+        if expect is None and r["violated"]:
+            raise vlib.Infra("LiveApply.tla: the idealised protocol violates %s - specification error" % r["violated"])
+        if expect == "StaleNeverApplied" and r["violated"] != "StaleNeverApplied":
+            raise vlib.Infra("LiveApply.tla: verify-before-lock should refute StaleNeverApplied, got %r" % r["violated"])
+        if expect == "F29" and r["violated"] not in ("AuthRequired", "DrainedBeforeMutate"):
+            raise vlib.Infra("LiveApply.tla: Start not excluded should refute AuthRequired, got %r" % r["violated"])
+        chk.add_design(r, "LiveApply (LockFirst=%s, StartExcluded=%s): %s" % (lf, se,
+                       "all properties hold" if expect is None else "TLC refutes %s, as intended (%s)" % (
+                           r["violated"], "the invariant bites" if expect != "F29" else "design-level counterpart of known finding F29")))
+
+
 def nontrivial(sc, tr):
     rets = tuple((e["err"].get("nil"), e["err"].get("code", ""), e.get("mode"), e.get("exported")) for e in tr if e["ev"] == "ApplyRet")
     if not rets:
         return None
     call = next(e for e in tr if e["ev"] == "ApplyCall")
     before = [e for e in tr if e["n"] < call["n"]]
-    return (sc["engine"], tuple(f for f in sc["features"] if f in KINDS + ["stale", "concurrent-apply", "held-apply", "apply-fails", "restart-fails", "inplace-partial-fail"]),
+    return (sc["engine"], tuple(f for f in sc["features"] if f in KINDS + ["stale", "concurrent-apply", "held-apply", "apply-fails", "restart-fails", "inplace-partial-fail", "start-during-apply"]),
             rets, sum(1 for e in before if e["ev"] == "Emit"), sum(1 for e in before if e["ev"] == "SrcAck"))
 
 
@@ -112,6 +152,7 @@ def run(tier, seed):
     quick = tier == "quick"
     rng = random.Random(seed)
     chk = dplib.DataPathCheck(PROP, tier, seed)
+    design(chk, quick)
     scs = []
     for engine in ("v1", "v2"):
         for kind in KINDS:
@@ -126,7 +167,7 @@ def run(tier, seed):
     if quick:
         scs = scs[::2] + scs[1::6]
     chk.run(scs, name="apply-everywhere")
-    n = 36 if quick else 720
+    n = 42 if quick else 840
     chk.run(special("v1", rng, n) + special("v2", rng, n), name="apply-special")
     # --- validate: LiveApplyTrace + DataPathTrace
     herr = [tr[0].get("scenario") for tr in chk.traces if any(e["ev"] in ("HarnessError", "ChildTimeout") for e in tr)]
